@@ -406,12 +406,14 @@ Proof.
       * constructor.
 Qed.
 
-Lemma step_cancel s tr id code s' os : Inv s tr -> cancel s id code = (s', os) -> Inv s' (tr ++ [(ECancel id code, os)]).
+Lemma step_cancel_with s tr id cls e s' os :
+  ev_toks e = [] -> (forall i l, deliveries_ev i (e, l) = []) ->
+  Inv s tr -> cancel_with s id cls = (s', os) -> Inv s' (tr ++ [(e, os)]).
 Proof.
-  intros HI H. unfold cancel in H.
+  intros Hev Hnd HI H. unfold cancel_with in H.
   destruct (nth_error (regs s) id) as [tok|] eqn:En.
   - destruct (tget (crc64 tok) (tbl s)) as [o0|] eqn:Eg; inversion H; subst s' os; clear H.
-    + apply (inv_quiet s); try assumption; cbn [regs tbl ev_toks]; try reflexivity; try (rewrite app_nil_r; reflexivity).
+    + apply (inv_quiet s); try assumption; cbn [regs tbl]; rewrite ?Hev; try reflexivity; try (rewrite app_nil_r; reflexivity); try (intros; apply Hnd).
       * intros k o Ho. left. destruct (Z.eq_dec k (crc64 tok)) as [E|N].
         -- subst k. rewrite tget_tdel_same in Ho. discriminate.
         -- rewrite tget_tdel_other in Ho by exact N. exact Ho.
@@ -424,7 +426,7 @@ Proof.
            apply N. symmetry. exact Hc.
       * constructor; [exact I|constructor].
       * constructor; [exact I|constructor].
-    + apply (inv_quiet s); try assumption; cbn [regs tbl ev_toks]; try reflexivity; try (rewrite app_nil_r; reflexivity).
+    + apply (inv_quiet s); try assumption; cbn [regs tbl]; rewrite ?Hev; try reflexivity; try (rewrite app_nil_r; reflexivity); try (intros; apply Hnd).
       * intros k o Ho. left. exact Ho.
       * intros id' He. cbn [existsb ends orb] in He. rewrite orb_false_r in He. apply Nat.eqb_eq in He. subst id'.
         split; [apply nth_error_Some; rewrite En; discriminate|].
@@ -434,11 +436,26 @@ Proof.
       * constructor; [exact I|constructor].
       * constructor; [exact I|constructor].
   - inversion H; subst s' os; clear H.
-    apply (inv_quiet s); try assumption; cbn [regs tbl ev_toks]; try reflexivity; try (rewrite app_nil_r; reflexivity).
+    apply (inv_quiet s); try assumption; cbn [regs tbl]; rewrite ?Hev; try reflexivity; try (rewrite app_nil_r; reflexivity); try (intros; apply Hnd).
     + intros k o Ho. left. exact Ho.
     + intros id' He. discriminate.
     + constructor.
     + constructor.
+Qed.
+
+Lemma step_cancel s tr id code s' os : Inv s tr -> cancel s id code = (s', os) -> Inv s' (tr ++ [(ECancel id code, os)]).
+Proof. intros HI H. exact (step_cancel_with s tr id _ (ECancel id code) s' os eq_refl (fun _ _ => eq_refl) HI H). Qed.
+
+Lemma step_cancel_err s tr id s' os : Inv s tr -> cancel_err s id = (s', os) -> Inv s' (tr ++ [(ECancelErr id, os)]).
+Proof. intros HI H. exact (step_cancel_with s tr id _ (ECancelErr id) s' os eq_refl (fun _ _ => eq_refl) HI H). Qed.
+
+Lemma step_quiet s tr : Inv s tr -> Inv s (tr ++ [(EQuiet, [])]).
+Proof.
+  intros HI. apply (inv_quiet s); try assumption; cbn [ev_toks existsb]; try reflexivity; try (rewrite app_nil_r; reflexivity).
+  - intros k o Ho. left. exact Ho.
+  - intros id He. discriminate.
+  - constructor.
+  - constructor.
 Qed.
 
 (* shape of Handler.Handle on a message whose key is in the table *)
@@ -600,10 +617,12 @@ Qed.
 Lemma step_inv dec s tr e s' os :
   Inv s tr -> (W -> wf_ev dec e) -> step dec s e = (s', os) -> Inv s' (tr ++ [(e, os)]).
 Proof.
-  intros HI Hwf H. destruct e as [tok|m now|id code]; cbn [step] in H.
+  intros HI Hwf H. destruct e as [tok|m now|id code|id|]; cbn [step] in H.
   - exact (step_reg _ _ _ _ _ HI H).
   - exact (step_msg _ _ _ _ _ _ _ HI Hwf H).
   - exact (step_cancel _ _ _ _ _ _ HI H).
+  - exact (step_cancel_err _ _ _ _ _ HI H).
+  - inversion H; subst s' os. exact (step_quiet _ _ HI).
 Qed.
 
 Lemma run_from_inv dec evs : forall s tr0,
@@ -684,7 +703,7 @@ Qed.
 Lemma step_cb_tok dec s e s' os i tok sq tag :
   step dec s e = (s', os) -> In (Cb i tok sq tag) os -> exists m now, e = EMsg m now /\ tok = m_tok m.
 Proof.
-  intros H Hin. destruct e as [t|m now|id code]; cbn [step] in H.
+  intros H Hin. destruct e as [t|m now|id code|id|]; cbn [step] in H.
   - unfold reg in H. destruct t; [|destruct (tget _ _)]; inversion H; subst os; cbn in Hin;
       repeat (destruct Hin as [Hin|Hin]; try discriminate); destruct Hin.
   - exists m, now. split; [reflexivity|].
@@ -695,8 +714,11 @@ Proof.
       * exfalso. destruct Hc as [[_ [Ht|[Ht _]]]|[_ [[Ht _]|[Ht _]]]]; subst tail;
           repeat (destruct Hin as [Hin|Hin]; try discriminate); destruct Hin.
     + unfold handle_msg in H. rewrite Eg in H. inversion H; subst os. destruct Hin as [Hin|[]]. discriminate.
-  - unfold cancel in H. destruct (nth_error _ _); [destruct (tget _ _)|]; inversion H; subst os; cbn in Hin;
+  - unfold cancel, cancel_with in H. destruct (nth_error _ _); [destruct (tget _ _)|]; inversion H; subst os; cbn in Hin;
       repeat (destruct Hin as [Hin|Hin]; try discriminate); destruct Hin.
+  - unfold cancel_err, cancel_with in H. destruct (nth_error _ _); [destruct (tget _ _)|]; inversion H; subst os; cbn in Hin;
+      repeat (destruct Hin as [Hin|Hin]; try discriminate); destruct Hin.
+  - inversion H; subst os. destruct Hin.
 Qed.
 
 Lemma run_from_cb_tok dec evs : forall s x i tok sq tag,
@@ -716,7 +738,7 @@ Proof.
 Qed.
 
 Definition ev_all_toks (e : ev) : list (list Z) :=
-  match e with EReg t => [t] | EMsg m _ => [m_tok m] | ECancel _ _ => [] end.
+  match e with EReg t => [t] | EMsg m _ => [m_tok m] | _ => [] end.
 Definition all_tokens (evs : list ev) : list (list Z) := flat_map ev_all_toks evs.
 (* no two tokens used in the history have the same CRC-64 *)
 Definition hash_injective_on (toks : list (list Z)) : Prop :=
@@ -841,7 +863,7 @@ Lemma wire_wf evs :
   wf_evs observe_wire evs.
 Proof.
   intros H. unfold wf_evs. eapply Forall_mono_in; [|exact H].
-  intros e He. destruct e as [|m now|]; cbn [wf_ev]; try exact I.
+  intros e He. destruct e as [|m now| | |]; cbn [wf_ev]; try exact I.
   destruct (observe_wire m) as [v|] eqn:E; [|exact I].
   pose proof (observe_wire_range m v He E) as Hr. change (2 ^ 24) with 16777216 in Hr. change (2 ^ 32) with 4294967296. lia.
 Qed.
